@@ -230,3 +230,39 @@ def replay_lr_type(p):
     if ra != bytes([int(a.logical_record_type)]) or rb != bytes([int(b.logical_record_type)]) or ra2 != ra:
         bad = f'{a.__name__}: {ra.hex()}/{ra2.hex()} (type {int(a.logical_record_type)}), {b.__name__}: {rb.hex()} (type {int(b.logical_record_type)})'
     return _res(bad, {'classes': [a.__name__, b.__name__]})
+
+
+def replay_write_wiring(p):
+    """DLISFile.write with an own label whose maximum differs from the constructor argument: every visible record of
+    the real file must respect the maximum declared in the label."""
+    _quiet()
+    import numpy as np
+    from dliswriter import DLISFile
+    from dliswriter.logical_record.misc.storage_unit_label import StorageUnitLabel
+    mrl_label, mrl_ctor, own_label = p['args'][:3]
+    change_after = bool(p['args'][7]) if len(p['args']) > 7 else False
+    df = DLISFile(storage_unit_label=StorageUnitLabel('SET', 1, mrl_label), max_record_length=mrl_ctor) if own_label \
+        else DLISFile(max_record_length=mrl_label)
+    if change_after:
+        df.storage_unit_label.max_record_length = mrl_label - 2
+    lf = df.add_logical_file()
+    lf.add_origin('O', file_set_number=1, creation_time='2020/01/01 00:00:00')
+    ch = lf.add_channel('C', data=np.arange(3, dtype=np.float64))
+    lf.add_frame('F', channels=(ch,))
+    nf = lf.add_no_format('N')
+    lf.add_no_format_frame_data(nf, b'x' * 40000)
+    path = fresh_tmp()
+    bad = ''
+    try:
+        df.write(path, output_chunk_size=65536)
+        strict.parse_file(open(path, 'rb').read())
+    except strict.StrictError as e:
+        bad = f'strict reader: {e}'
+    except Exception as e:
+        bad = f'write raised {type(e).__name__}: {e}'
+    finally:
+        try:
+            os.remove(path)
+        except OSError:
+            pass
+    return _res(bad, {'label_max': mrl_label - (2 if change_after else 0), 'ctor_max': mrl_ctor})
